@@ -42,7 +42,60 @@ this set, so every seed is covered):
      three decades of r on [-1/2, 1/2]) and is therefore not in the catalogue.  Every mutant of the
      selftest produces errors >= 1e-2.
   LinearInfiniteRTransform: all 942 assigned solves raise (AttributeError / TypeError) - genuine
-  defect, see gen/proposals/C15-ode-scalar-point-derivatives.diff.
+  defect, see gen/proposals/C15-ode-scalar-point-derivatives.diff (repaired in /repo by ca3b528; the
+  selftest now takes the repair back and expects the failures to re-appear).
+
+EXTENSION (audit of 2026-09-26; specification spec/OdeX.tla + MC_OdeX.cfg, harness vf/c15x.py)
+ 4. TLC checks ``OdeX.tla``: 315 problems whose solution and coefficients are expression trees (exp(-x),
+    sin 2x + x, 1/(2+x), x exp(x/2), log(2+x), two polynomials; coefficient pools of constants and
+    functions with declared signs), f built by the specification's symbolic derivative; exact laws on
+    the rational fragment (derivative trees = closed forms, residual identity, declared signs); five
+    intervals, three with INTEGER end points exactly on the boundary of the transformation's domain
+    and the rule which classes are admitted there; boundary-condition patterns with second
+    derivatives, all conditions at one end, permuted order (two-point patterns with a second-
+    derivative condition only through affine maps - see the comment at XAffine); the catalogue
+    extended by inverses of the half-line classes, double inverses, trim_inf=False and user-defined
+    polynomial transformations (monotone where admitted; "the transformed equation is satisfied by the
+    transformed solution" and Faa di Bruno as polynomial identities for them; 16 exact helper cases
+    with polynomial coefficient FUNCTIONS); the call forms as program dimensions (type of y0 / x_span
+    / constants, coefficient container, no_derivatives, bd_cond form, initial guess omitted, four
+    meshes, all six scipy methods + every optional argument omitted + a solver class).
+ 5. the harness executes the assigned solves (6291; quick: a seeded sample of 170 in which every
+    dimension occurs at least 3 times; thorough: all BVP / fast methods, a seeded half / third of the
+    Radau / RK23 ones) and applies, per solve: accuracy against the 50-digit values of the
+    specification's jet trees; shape ((N,) for a transformed solve with no_derivatives=True);
+    the prescribed initial / boundary conditions in the variable they are stated in; the same numbers
+    for reversed / repeated / single / scalar / 0-d / list / float32 points and after a second solve;
+    no argument object modified.
+
+CALIBRATION of the extension (2026-09-26, pinned tree + fixes up to 37c1f44, ALL 6291 assigned solves,
+0 exceptions; worst error relative to max|y^(k)|  ->  acceptance  (orders of margin)):
+  IVP DOP853/RK45/Radau/class at 1e-10:  direct 2.3e-8 -> 1e-4 (3.6);  transformed 3.0e-8 -> 1e-4 (3.5)
+  BVP tol 1e-8:                          direct 1.2e-8 -> 1e-4 (3.9);  transformed 3.7e-7 -> 1e-3 (3.4)
+  IVP RK23/BDF/LSODA at 1e-10:           direct 9.3e-8 -> 1e-4 (3.0);  transformed 9.0e-7 -> 1e-3 (3.05)
+  IVP, every optional argument omitted:  direct 3.5e-6, transformed 2.7e-6 -> 5e-3 (3.2)
+  interval given as float32 array + transformation (grid.rtransform maps the end points in float32):
+                                         1.26e-5 (BDF, Knowles k=3) -> 2e-2 (3.2)
+  float32 points: transformed 2.3e-6 -> 3e-3 (3.1); direct 1.1e-7 (scipy's LSODA interpolant) -> 1e-4 (3.0)
+  same numbers for reversed / repeated / single / scalar / list points: worst 1.1e-15 -> 1e-12
+  initial conditions (one-step methods, no float32 interval): |returned - prescribed| <= 1e3 x
+      eps (max|y^(k)| + cond(M) max|data|); measured worst 0.32 x (3.5 orders); BDF / LSODA excluded
+      (their interpolants do not reproduce the initial point: measured 2.6e-7)
+  boundary conditions: derived, not calibrated - scipy accepts a BVP solution only with all boundary
+      residuals < tol = 1e-8 (absolute); acceptance 3 x (tol + rounding of the jet mapping);
+      measured worst 0.96 x tol
+  exact helper cases (polynomial g and coefficients): worst deviation 0 (acceptance 1e-12 relative)
+  Every mutant of the selftest aimed at these clauses produces errors >= 1e-1 or an exception.
+  One assigned solve was unsound in the first calibration and led to a RULE in the specification instead of a
+  tolerance: a two-point pattern with a second-derivative condition through KnowlesRTransform(.,.,1)
+  is a singular boundary-value problem in the new variable (XAffine in OdeX.tla).
+  Classes with an exponent at the end point x = -1 are not admitted on the boundary intervals (their
+  derivative formulas contain (1+x)^(k-2); C03's subject).
+GENUINE DEFECT found by the extension (known_findings.d/C15.json, gen/proposals/
+C15-transformed-callable-scalar-and-list-points.diff): the callable of a TRANSFORMED solve cannot be
+evaluated at a scalar point (IndexError; with no_derivatives=True it returns the state vector in the
+NEW variable instead of y(x)) nor at a list of points (TypeError), unlike the callable of the direct
+solve of the same problem.
 """
 from __future__ import annotations
 
@@ -333,7 +386,7 @@ def helper_cases(rep, jets):
 
 
 def spec_run(wd):
-    res = tlc.run_tlc("Ode", "MC_Ode.cfg", wd, workers=16, timeout=900).require_ok("MC_Ode")
+    res = tlc.run_tlc("Ode", "MC_Ode.cfg", wd, workers=8, timeout=900).require_ok("MC_Ode")
     probs = [t[1] for t in tlcx.tagged(res.stdout, "PROB")]
     jets = [t[1] for t in tlcx.tagged(res.stdout, "JET")]
     tfs = tlcx.tagged(res.stdout, "TF")
@@ -398,6 +451,7 @@ def run(tier: str, _select=None) -> int:
         jobs = fast[:240] + rk[:45] + radau[:15]
         jobs += [j for j in hyp if j not in jobs][:16]
     else:
+        xjobs = c15x.select_thorough(xjobs, random.Random(rep.seed + 15))
         # RK45 / Radau at 1e-10 are slow (0.3 / 2 s per solve): thorough runs every DOP853 and BVP
         # solve and a seeded third / tenth of the RK45 / Radau ones (the calibration covered all)
         keep = []
@@ -415,8 +469,9 @@ def run(tier: str, _select=None) -> int:
             (xresults if key[0] == "x" else results)[key] = out
     rep.set("solve_wall_s", round(time.time() - t0, 1))
     rep.set("x_calibration", c15x.report(rep, xjobs, xresults))
-    rep.set("x_acceptance", {"accuracy": c15x.ACCEPT, "same_numbers": c15x.ACCEPT_SAME, "float32": c15x.ACCEPT_F32,
-                             "ic_factor": c15x.IC_FACTOR, "bc_factor": c15x.BC_FACTOR})
+    rep.set("x_acceptance", {"accuracy": c15x.ACCEPT, "float32_interval": c15x.ACCEPT_F32_SPAN, "same_numbers": c15x.ACCEPT_SAME,
+                             "float32_points": c15x.ACCEPT_F32, "ic_factor": c15x.IC_FACTOR, "bc_factor": c15x.BC_FACTOR})
+    rep.set("x_solves_run", len(xjobs))
 
     calib = {}
     bykey = {j["key"]: j for j in jobs}
@@ -454,14 +509,19 @@ def run(tier: str, _select=None) -> int:
     rep.set("acceptance", {"direct": ACCEPT_DIRECT, "transformed": ACCEPT_TRANSFORMED})
     rep.set("rule", "one evaluation = one solve (problem, solver kind, transformation | direct) compared at the specification's "
                     "rational points, or one rational helper case; distinct = distinct (problem id, solve, transformation); "
-                    "all problems have a non-constant polynomial solution of degree >= 2 and a non-trivial operator")
+                    "all problems have a non-constant polynomial solution of degree >= 2 and a non-trivial operator; extension: "
+                    "one evaluation = one solve assigned by OdeX.tla (problem X, slot, transformation | direct) with all its "
+                    "clauses, or one exact helper case with a polynomial transformation")
     rep.assume("derivative methods of grid.rtransform are used to map boundary DATA of transformed BVPs (verified by C03)")
     rep.assume("scipy.integrate.solve_ivp / solve_bvp meet their tolerances on these well-conditioned problems (calibrated)")
+    rep.assume("OdeX.tla: the symbolic derivative D of Expr.tla is checked exactly on the rational families by TLC and against "
+               "50-digit numerical differentiation for the transcendental ones by the harness; declared signs of the "
+               "transcendental coefficients are checked on a 601-point grid")
     return rep.finish()
 
 
 THOROUGH_FRACTION = {"RK45": 0.35, "Radau": 0.1}
-POOL = 16
+POOL = 8
 
 
 _SCALAR_OLD = """    def interpolate_wrt_original_var(pt):
